@@ -8,6 +8,7 @@ import (
 	"encoding/json"
 	"fmt"
 	"os"
+	"reflect"
 	"strconv"
 	"strings"
 	"time"
@@ -218,9 +219,128 @@ func Param(name string, def int) int {
 // instead of an inconclusive run. Natively a watchdog turns a hang into "timeout".
 func HangIsViolation() {}
 
-func MapOrder(mode int)      {}
-func PoolMode(mode int)      {}
-func Freeze(root interface{}) {}
+func MapOrder(mode int) {}
+func PoolMode(mode int) {}
+
+// Freeze marks everything reachable from root as shared/immutable. Engine: any store or map
+// update into it is reported. Natively: a fingerprint of the object graph is taken now and
+// compared when the harness ends, so a write that changes anything is seen as a failure.
+func Freeze(root interface{}) {
+	frozenRoots = append(frozenRoots, root)
+	frozenPrints = append(frozenPrints, fingerprint(root))
+}
+
+var (
+	frozenRoots  []interface{}
+	frozenPrints []string
+)
+
+const frozenLabel = "write to an object reachable from the shared schema (data race between goroutines sharing the Schema)"
+
+func fingerprint(root interface{}) string {
+	var sb strings.Builder
+	seen := map[uintptr]int{}
+	var walk func(v reflect.Value, depth int)
+	walk = func(v reflect.Value, depth int) {
+		if depth > 64 {
+			sb.WriteString("…")
+			return
+		}
+		switch v.Kind() {
+		case reflect.Invalid:
+			sb.WriteString("nil")
+		case reflect.Bool:
+			fmt.Fprintf(&sb, "%v", v.Bool())
+		case reflect.Int, reflect.Int8, reflect.Int16, reflect.Int32, reflect.Int64:
+			fmt.Fprintf(&sb, "%d", v.Int())
+		case reflect.Uint, reflect.Uint8, reflect.Uint16, reflect.Uint32, reflect.Uint64, reflect.Uintptr:
+			fmt.Fprintf(&sb, "%d", v.Uint())
+		case reflect.Float32, reflect.Float64:
+			fmt.Fprintf(&sb, "%v", v.Float())
+		case reflect.String:
+			sb.WriteString(strconv.Quote(v.String()))
+		case reflect.Ptr:
+			if v.IsNil() {
+				sb.WriteString("nil")
+				return
+			}
+			p := v.Pointer()
+			if id, ok := seen[p]; ok {
+				fmt.Fprintf(&sb, "^%d", id)
+				return
+			}
+			seen[p] = len(seen)
+			sb.WriteString("&")
+			walk(v.Elem(), depth+1)
+		case reflect.Interface:
+			if v.IsNil() {
+				sb.WriteString("nil")
+				return
+			}
+			sb.WriteString(v.Elem().Type().String() + ":")
+			walk(v.Elem(), depth+1)
+		case reflect.Struct:
+			if strings.HasPrefix(v.Type().PkgPath(), "regexp") || strings.HasPrefix(v.Type().PkgPath(), "sync") || strings.Contains(v.Type().PkgPath(), "xpath") {
+				sb.WriteString("<" + v.Type().String() + ">") // library internals (own synchronisation / lazily built)
+				return
+			}
+			sb.WriteString("{")
+			for i := 0; i < v.NumField(); i++ {
+				sb.WriteString(v.Type().Field(i).Name + ":")
+				walk(v.Field(i), depth+1)
+				sb.WriteString(",")
+			}
+			sb.WriteString("}")
+		case reflect.Slice, reflect.Array:
+			if v.Kind() == reflect.Slice && v.IsNil() {
+				sb.WriteString("nil")
+				return
+			}
+			sb.WriteString("[")
+			for i := 0; i < v.Len(); i++ {
+				walk(v.Index(i), depth+1)
+				sb.WriteString(",")
+			}
+			sb.WriteString("]")
+		case reflect.Map:
+			if v.IsNil() {
+				sb.WriteString("nil")
+				return
+			}
+			keys := v.MapKeys()
+			ks := make([]string, len(keys))
+			for i, k := range keys {
+				ks[i] = fmt.Sprint(k)
+			}
+			order := make([]int, len(keys))
+			for i := range order {
+				order[i] = i
+			}
+			for i := 1; i < len(order); i++ {
+				for j := i; j > 0 && ks[order[j]] < ks[order[j-1]]; j-- {
+					order[j], order[j-1] = order[j-1], order[j]
+				}
+			}
+			sb.WriteString("map[")
+			for _, i := range order {
+				sb.WriteString(ks[i] + ":")
+				walk(v.MapIndex(keys[i]), depth+1)
+				sb.WriteString(",")
+			}
+			sb.WriteString("]")
+		case reflect.Func:
+			if v.IsNil() {
+				sb.WriteString("nil")
+			} else {
+				sb.WriteString("func")
+			}
+		default:
+			sb.WriteString("?" + v.Kind().String())
+		}
+	}
+	walk(reflect.ValueOf(root), 0)
+	return sb.String()
+}
 
 // NativeRun executes a harness natively on the recorded vector and prints its outcome.
 // A watchdog (10 s) reports a harness that does not return as "timeout".
@@ -246,6 +366,13 @@ func NativeRun(name string, fn func()) (result string) {
 	}()
 	select {
 	case result = <-done:
+		if result == "completed" {
+			for i, r := range frozenRoots {
+				if fingerprint(r) != frozenPrints[i] {
+					result = "assert-fail:" + frozenLabel
+				}
+			}
+		}
 	case <-time.After(10 * time.Second):
 		result = "timeout"
 		fmt.Println("ZZ-RESULT: " + result)
@@ -299,6 +426,7 @@ func NativeRunAll(harnesses map[string]func()) {
 		}
 		cnt = map[string]int{}
 		Trace, Covered = nil, nil
+		frozenRoots, frozenPrints = nil, nil
 		known = map[string]bool{}
 		for _, k := range it.Known {
 			known[k] = true
